@@ -1,3 +1,4 @@
 import TinyFlux.Audit.Tool
 import TinyFlux.Props.C13
+import TinyFlux.Props.C13EndToEnd
 #audit TinyFlux.Props.C13
